@@ -149,6 +149,70 @@ pub fn run(out: &mut Out, seed: u64, thorough: bool) {
             }
         }
     }
+    // 2b. "from reset": a CPU reset in the middle of every instruction (after 1..6 edges), then the
+    //     sequencer must reach the first fetch over programmed words of page 0 only
+    for op in 0..=255u8 {
+        if !crate::gen::defined_first(op) {
+            continue;
+        }
+        for k in [1u32, 2, 3, 4, 6, 9] {
+            if !thorough && (k + op as u32) % 2 == 1 {
+                continue;
+            }
+            let mut s = Sess::new();
+            let mut prog = vec![op];
+            if op >= 0xF0 {
+                if (op & 0x0F) == 0x0B || (op & 0x0F) == 0x0F {
+                    prog.push(0x40);
+                }
+                prog.push(0x10);
+            }
+            while prog.len() < 8 {
+                prog.push(0x02);
+            }
+            run_line(out, &mut s, "new");
+            run_line(out, &mut s, &format!("load 0 255 {}", hexs(&prog)));
+            run_line(out, &mut s, &format!("force 0 2 {} - 0 0 0 0 0 0 0 R 0", hexs(&[3, 5, 7, 0, 0, 0x90, 0, 0])));
+            let mut guard = 0;
+            while !s.m.is_instruction_done() && guard < 50 {
+                run_line(out, &mut s, "edge");
+                guard += 1;
+            }
+            run_line(out, &mut s, "d");
+            run_line(out, &mut s, &format!("edges {}", k));
+            run_line(out, &mut s, "cpureset");
+            run_line(out, &mut s, "d");
+            // observe: steps to the first fetch, zero words, page escapes
+            let mut steps = 0u32;
+            let mut zero = false;
+            let mut escape = false;
+            let mut completed = false;
+            let mut edges = 0;
+            while edges < 200 {
+                let before = s.m.verif_state();
+                s.m.raw_mut().trigger_clock_edge();
+                edges += 1;
+                if before.pending_wait_for_memory {
+                    continue;
+                }
+                let st = s.m.verif_state();
+                steps += 1;
+                let w = emulator_2a_lib::machine::MicroprogramRam::CONTENT[st.address];
+                if w.bits() == 0 {
+                    zero = true;
+                }
+                if st.address / 32 != (st.instruction as usize) / 16 {
+                    escape = true;
+                }
+                if s.m.is_instruction_done() {
+                    completed = true;
+                    break;
+                }
+            }
+            out.emit(&format!("spec.flowreset {} {}", op, k), &format!("completes={} zero={} escape={} steps={}", completed as u8, zero as u8, escape as u8, steps));
+            out.count("reset-mid-instruction");
+        }
+    }
     // 3. the data-driven loops: MUL and DIV with boundary operands in every register (zero divisor,
     //    zero / one / maximal factors), all 32 opcodes
     let vals: &[u8] = if thorough { &[0, 1, 2, 3, 0x7F, 0x80, 0xFE, 0xFF] } else { &[0, 1, 2, 0x80, 0xFF] };
